@@ -400,6 +400,11 @@ func (its *PushPullHandler) initClientInfoWithDatatypeDoc() errors.OrdaError {
 	if its.datatypeDoc == nil {
 		return errors.PushPullNoDatatypeToSubscribe.New(its.ctx.L(), its.Key)
 	}
+	if its.datatypeDoc.DUID != its.DUID {
+		// the datatype was found by its key, but the request names another DUID: the log that
+		// is read and written below must be the one of the datatype that was found.
+		return errors.PushPullAbortionOfClient.New(its.ctx.L(), "DUID does not match the datatype of key "+its.Key)
+	}
 	// if its.cli
 	its.subClientDoc = its.datatypeDoc.GetClientInDatatypeDoc(its.CUID, its.isReadOnly)
 	if its.subClientDoc != nil {
@@ -435,6 +440,12 @@ func (its *PushPullHandler) evaluatePushPullCase() (pushPullCase, errors.OrdaErr
 		}
 		if its.datatypeDoc == nil {
 			return caseMatchNothing, nil
+		}
+		if its.datatypeDoc.CollectionNum != its.collectionDoc.Num {
+			// DUIDs are looked up across collections; a datatype of another collection must be
+			// neither read nor written on behalf of this client.
+			its.datatypeDoc = nil
+			return caseError, errors.PushPullAbortionOfClient.New(its.ctx.L(), "DUID of a datatype in another collection")
 		}
 		return caseUsedDUID, nil
 	}
